@@ -10,7 +10,7 @@ ASSUME = [
     "frames are decoded in-package with the session's own Obfuscator (C04 decides that codec against an independent one)",
     "exhaustive model check for <= 2 streams x writes of <= 2 frames x close; larger instances only through recorded traces",
 ]
-KEYS = {"seq-duplicate", "seq-gap", "seq-order", "close-not-last", "wire-undecodable", "trace-rejected", "write-interleaved"}
+KEYS = {"seq-duplicate", "seq-gap", "seq-order", "close-not-last", "wire-undecodable", "trace-rejected", "write-interleaved", "close-frame-missing"}
 RULE = ("(a) MuxGen behaviours with multi-frame writes and closes replayed on a real Session pair, every record decoded at the wire; "
         "(b) gate scenarios: each ordered pair of {Write, ReadFrom, Close} with the first sender parked between encode and Seq++; "
         "(c) stress rounds (1-8 connections, 1-4 streams, 2-4 concurrent writers per stream mixing Write/ReadFrom/Close, optional "
